@@ -41,6 +41,27 @@ UNKNOWN_REGEX = re.compile(
 # Recognized register names
 REGISTERS = ["A", "B", "D", "X", "Y", "U", "S", "CC", "DP", "PC"]
 
+# F U N C T I O N S ###########################################################
+
+
+def fit_value(value, hex_digits, signed=True):
+    """
+    Renders a numeric value in exactly the number of hex digits that the addressing
+    mode calls for. Raises an OperandTypeError if the value cannot be represented
+    in that many digits.
+
+    :param value: the NumericValue to render
+    :param hex_digits: the number of hex digits of the operand field (2 or 4)
+    :param signed: True if negative values (two's complement) are acceptable
+    :return: a NumericValue that renders to exactly hex_digits digits
+    """
+    number = -value.int if value.is_negative() else value.int
+    limit = 1 << (4 * hex_digits)
+    if number >= limit or number < (-(limit >> 1) if signed else 0):
+        raise OperandTypeError("[{}] does not fit in {} bits".format(number, 4 * hex_digits))
+    return NumericValue(number, size_hint=hex_digits)
+
+
 # C L A S S E S ###############################################################
 
 
@@ -126,6 +147,13 @@ class Operand(ABC):
     def is_indexed(self):
         return self.type == OperandType.INDEXED or self.type == OperandType.EXTENDED_INDIRECT
 
+    def address_digits(self):
+        """
+        Returns the number of hex digits an address (a label or a label expression) is
+        rendered to when it is the operand of this addressing mode.
+        """
+        return 4
+
     def resolve_symbols(self, symbol_table):
         """
         Given a symbol table, searches the operands for any symbols, and resolves
@@ -141,8 +169,9 @@ class Operand(ABC):
         if not self.is_unknown():
             return self
 
-        if self.value.is_numeric() and (self.value.is_direct() or old_value.is_explicit_direct()):
-            return DirectOperand(self.operand_string, self.instruction, DirectNumericValue(self.value.int))
+        fits_direct = self.value.is_direct() and self.value.int < 0x100 and not self.value.is_negative()
+        if self.value.is_numeric() and (fits_direct or old_value.is_explicit_direct()):
+            return DirectOperand(self.operand_string, self.instruction, self.value)
 
         return ExtendedOperand(self.operand_string, self.instruction, value=self.value)
 
@@ -401,10 +430,14 @@ class ImmediateOperand(Operand):
             )
         return CodePackage(
             op_code=NumericValue(self.instruction.mode.imm),
-            additional=self.value,
+            additional=fit_value(self.value, self.address_digits()) if self.value.is_numeric() else self.value,
             size=self.instruction.mode.imm_sz,
             max_size=self.instruction.mode.imm_sz,
         )
+
+    def address_digits(self):
+        op_code_size = 2 if self.instruction.mode.imm > 0xFF else 1
+        return 2 * (self.instruction.mode.imm_sz - op_code_size)
 
 
 class DirectOperand(Operand):
@@ -427,7 +460,7 @@ class DirectOperand(Operand):
             )
         return CodePackage(
             op_code=NumericValue(self.instruction.mode.dir),
-            additional=self.value,
+            additional=fit_value(self.value, 2, signed=False) if self.value.is_numeric() else self.value,
             size=self.instruction.mode.dir_sz,
             max_size=self.instruction.mode.dir_sz,
         )
@@ -454,7 +487,7 @@ class ExtendedOperand(Operand):
             )
         return CodePackage(
             op_code=NumericValue(self.instruction.mode.ext),
-            additional=self.value,
+            additional=fit_value(self.value, 4) if self.value.is_numeric() else self.value,
             size=self.instruction.mode.ext_sz,
             max_size=self.instruction.mode.ext_sz,
         )
@@ -512,7 +545,7 @@ class ExtendedIndexedOperand(Operand):
             return CodePackage(
                 op_code=NumericValue(self.instruction.mode.ind),
                 post_byte=NumericValue(0x9F),
-                additional=self.value,
+                additional=fit_value(self.value, 4),
                 size=size,
                 max_size=size,
             )
